@@ -1,5 +1,6 @@
 """C19 — disk cleanup deletes only when over a limit and never the user's own blobs."""
 import ast
+import re
 
 from ..astutil import dotted, call_name, kwarg, is_const, unparse, norm_text, walk_local
 from .. import AnalysisError
@@ -241,8 +242,58 @@ CLEAN_ALL = "lbry.blob.disk_space_manager.DiskSpaceManager.clean"
 _base_check = check
 
 
+def periphery(ctx, prog):
+    """inputs of a pass that live outside the disk space manager: the limit it reads, the is_mine mark of what the user published, one file row per stream"""
+    from .. import rules as R
+    # ---- the limit: `blob_storage_limit = 0` (unlimited) must override a non-zero value from a lower-priority source; a setter that treats "equals the
+    # default" as "unset" deletes the override instead and the old limit stays in force
+    st = ctx.fa("lbry.conf.Setting.__set__")
+    val = st.fi.params()[2]
+    dels = st.stmts(ast.Delete)
+    stores = [s for s in st.stmts(ast.Assign) if any(isinstance(t, ast.Subscript) and unparse(t.slice) == "self.name" for t in s.targets)]
+    ctx.floor("C19-D6/CONF", "Setting.__set__ stores / clears the value", min(len(dels), len(stores)), 1, site=st.site(), func=st.fi.qualname)
+    for d in dels:
+        R.only_terms(ctx, "C19-D6/CONF", st, d, [f"{val} == NOT_SET", "self.name in location"], "a setting is cleared only for the NOT_SET sentinel — never because the value equals the default",
+                     key="C19-D6/CONF|Setting.__set__|clear")
+        R.gate(ctx, "C19-D6/CONF", st, d, f"{val} == NOT_SET", "…and only then", key="C19-D6/CONF|Setting.__set__|clear-gate")
+    for a in stores:
+        R.exact_gate(ctx, "C19-D6/CONF", st, a, f"not {val} == NOT_SET", "every other value — including one equal to the default — is stored", key="C19-D6/CONF|Setting.__set__|store")
+        ctx.ob("C19-D6/CONF", dotted(a.value) == val, st.site(a), "what is stored is the value given", func=st.fi.qualname, key="C19-D6/CONF|Setting.__set__|value")
+    gt = ctx.fa("lbry.conf.Setting.__get__")
+    rets = [r for r in gt.stmts(ast.Return) if unparse(r.value) == "location[self.name]"]
+    ok = len(rets) == 1 and gt.guarded(rets[0], "self.name in location")[0] and any(unparse(f.iter) == "obj.search_order" for f in gt.stmts(ast.For))
+    ctx.ob("C19-D6/CONF", ok, gt.site(), "a setting reads as the first location of the search order that has it", func=gt.fi.qualname, key="C19-D6/CONF|Setting.__get__")
+    # ---- what the user published is marked is_mine when its rows are first written (later writes are INSERT OR IGNORE and cannot correct it)
+    cr = ctx.fa("lbry.stream.stream_manager.StreamManager.create")
+    gb = [c for c in cr.calls(name="get_blob") if c.args and unparse(c.args[0]) == "descriptor.sd_hash"]
+    ctx.floor("C19-D6/MINE", "the published stream's sd blob is looked up in StreamManager.create", len(gb), 1, site=cr.site(), func=cr.fi.qualname)
+    for c in gb:
+        ok = is_const(kwarg(c, "is_mine"), True) or (len(c.args) >= 3 and is_const(c.args[2], True))
+        ctx.ob("C19-D6/MINE", ok, cr.site(c), "the descriptor blob of a published stream is created with is_mine=True (descriptor blobs are offered for deletion last, not never)",
+               func=cr.fi.qualname, key="C19-D6/MINE|create|sd-blob")
+    cs = [c for c in cr.calls(name="create_stream")]
+    ok = len(cs) == 1 and unparse(kwarg(cs[0], "blob_completed_callback")) == "self.blob_manager.blob_completed"
+    ctx.ob("C19-D6/MINE", ok, cr.site(), "the data blobs of a published stream are reported through the manager's completion callback", func=cr.fi.qualname, key="C19-D6/MINE|create|callback")
+    # ---- one file row per stream: get_stored_blobs joins through `file`, a second row makes every blob of the stream count twice and the pass stops early
+    ms = ctx.fa("lbry.stream.managed_stream.ManagedStream.start")
+    fe = ms.calls(name="file_exists")
+    ctx.floor("C19-D6/ROWS", "ManagedStream.start asks whether the stream already has a file row", len(fe), 1, site=ms.site(), func=ms.fi.qualname)
+    for c in fe:
+        ok = len(c.args) == 1 and unparse(c.args[0]) == "self.sd_hash"
+        ctx.ob("C19-D6/ROWS", ok, ms.site(c), "the lookup is by the stream's sd hash (the key file_exists queries on)", func=ms.fi.qualname, key="C19-D6/ROWS|start|key")
+    sv = [c for c in ms.calls() if call_name(c) in ("save_downloaded_file", "save_published_file")]
+    ctx.floor("C19-D6/ROWS", "file row insertion in ManagedStream.start", len(sv), 1, site=ms.site(), func=ms.fi.qualname)
+    for c in sv:
+        R.gate(ctx, "C19-D6/ROWS", ms, c, "not await self.blob_manager.storage.file_exists(self.sd_hash)", "a file row is inserted only when the stream has none", key="C19-D6/ROWS|start|guard")
+    fx = ctx.fa("lbry.extras.daemon.storage.SQLiteStorage.file_exists")
+    sql = " ".join(x.value for x in ast.walk(fx.fi.node) if isinstance(x, ast.Constant) and isinstance(x.value, str))
+    ok = re.search(r"s\.sd_hash\s*=\s*\?", sql) is not None and fx.fi.params()[1] == "sd_hash" and re.search(r"from\s+file\s+f\b", sql) is not None
+    ctx.ob("C19-D6/ROWS", ok, fx.site(), "file_exists looks for a `file` row whose stream has the given sd hash", func=fx.fi.qualname, key="C19-D6/ROWS|file_exists|sql")
+
+
 def check(ctx):            # noqa: F811  (extends the rules above)
     _base_check(ctx)
+    periphery(ctx, ctx.prog)
     prog = ctx.prog
     fa = ctx.fa(CLEAN)
     fi = fa.fi
